@@ -180,14 +180,28 @@ def strip_blk(t):
     return r
 
 
-def _has_quant(t):
-    k = t.get_id()
-    if k in _q_cache:
-        return _q_cache[k]
-    r = z3.is_quantifier(t) or any(_has_quant(c) for c in t.children())
-    _q_cache[k] = r
-    _keep.append(t)
-    return r
+def _has_quant(root):
+    # iterative (goals from unrolled loops nest thousands deep)
+    stack = [(root, False)]
+    while stack:
+        t, done = stack.pop()
+        k = t.get_id()
+        if k in _q_cache:
+            continue
+        if z3.is_quantifier(t):
+            _q_cache[k] = True
+            _keep.append(t)
+            continue
+        ch = t.children()
+        if not done:
+            stack.append((t, True))
+            for c in ch:
+                if c.get_id() not in _q_cache:
+                    stack.append((c, False))
+            continue
+        _q_cache[k] = any(_q_cache[c.get_id()] for c in ch)
+        _keep.append(t)
+    return _q_cache[root.get_id()]
 
 
 def _has_var(t):
@@ -334,25 +348,36 @@ def elim_div(terms):
     returns (rewritten terms, extra hypotheses); only used when the formulas are quantifier free"""
     cache, recips = {}, {}
 
-    def walk(t):
-        k = t.get_id()
-        if k in cache:
-            return cache[k]
-        if z3.is_quantifier(t) or not z3.is_app(t) or t.num_args() == 0:
-            cache[k] = t
-            return t
-        args = [walk(c) for c in t.children()]
-        if t.decl().kind() == z3.Z3_OP_DIV and t.sort() == z3.RealSort() and not (z3.is_rational_value(args[1]) or z3.is_int_value(args[1])):
-            d = args[1]
-            if d.get_id() not in recips:
-                recips[d.get_id()] = (d, z3.Real("recip!%d" % len(recips)))
-            r = args[0] * recips[d.get_id()][1]
-        elif all(a.eq(b) for a, b in zip(args, t.children())):
-            r = t
-        else:
-            r = t.decl()(*args)
-        cache[k] = r
-        return r
+    def walk(root):
+        # iterative post-order (terms from unrolled loops nest thousands deep)
+        stack = [(root, False)]
+        while stack:
+            t, done = stack.pop()
+            k = t.get_id()
+            if k in cache:
+                continue
+            if z3.is_quantifier(t) or not z3.is_app(t) or t.num_args() == 0:
+                cache[k] = t
+                continue
+            ch = t.children()
+            if not done:
+                stack.append((t, True))
+                for c in ch:
+                    if c.get_id() not in cache:
+                        stack.append((c, False))
+                continue
+            args = [cache[c.get_id()] for c in ch]
+            if t.decl().kind() == z3.Z3_OP_DIV and t.sort() == z3.RealSort() and not (z3.is_rational_value(args[1]) or z3.is_int_value(args[1])):
+                d = args[1]
+                if d.get_id() not in recips:
+                    recips[d.get_id()] = (d, z3.Real("recip!%d" % len(recips)))
+                r = args[0] * recips[d.get_id()][1]
+            elif all(a.eq(b) for a, b in zip(args, ch)):
+                r = t
+            else:
+                r = t.decl()(*args)
+            cache[k] = r
+        return cache[root.get_id()]
     out = [walk(t) for t in terms]
     extra = [z3.Implies(d != 0, d * r == 1) for d, r in recips.values()]
     return out, extra
